@@ -1,6 +1,7 @@
 package sim
 
 import (
+	"os"
 	"strings"
 	"fmt"
 	"sort"
@@ -41,6 +42,7 @@ func idsScenario(r *RunCtx) {
 	nextIdx := 0
 	// dense preemption: the id generator is a handful of statements inside a long open call
 	r.S.PreMaxGap = []int{6, 20, 60, 200}[r.Intn(4)]
+	r.S.PreNoStop = true
 	// tight: the clock (almost) stands still between manager lifetimes, so that later managers collide with existing ids
 	tight := r.Intn(3) == 0
 	for l := 0; l < lifetimes; l++ {
@@ -203,8 +205,24 @@ func (nr *netRun) checkIDs(opens []*idOpen, before map[datatransfer.ChannelID]Sn
 	for _, o := range opens {
 		if o.life == nr.A.life && o.x.openErr != nil {
 			r.Probe("open-failed")
-			if strings.Contains(o.x.openErr.Error(), "cannot initiate a state for identifier") {
+			if os.Getenv("VERIF_DEBUG_IDS") != "" {
+				r.Probe("open-failed:" + panicValNorm.ReplaceAllString(o.x.openErr.Error(), "#"))
+			}
+			if msg := o.x.openErr.Error(); strings.Contains(msg, "cannot initiate a state for identifier") || strings.Contains(msg, "already tracking identifier") {
 				r.Probe("open-refused-because-id-exists")
+				// whose id did this open draw? one issued by this very manager (ids not unique under concurrency), or one of
+				// an earlier manager (legitimate only when the clock stood still between the two)
+				sameLife := false
+				for _, p := range ok {
+					if p.life == o.life && strings.Contains(msg, "`"+p.x.chid.String()+"`") {
+						sameLife = true
+					}
+				}
+				if sameLife {
+					r.Failf("C18", "duplicate-transfer-id", "same-manager|second-open-refused", "open #%d drew a transfer id that the same manager (life %d) had already issued: %s", o.x.idx, o.life, msg)
+				} else if !tight {
+					r.Failf("C18", "transfer-id-not-increasing", "later-manager|open-refused", "open #%d of manager life %d drew the transfer id of a channel of an earlier manager although the clock had moved on: %s", o.x.idx, o.life, msg)
+				}
 			}
 		}
 	}
